@@ -135,16 +135,16 @@ pub fn rows(args: &[String]) -> i32 {
         };
         out.put(&json!({"t": "fault", "kind": kind, "code": code, "input": lossy(input)}));
     }
-    // response buffer exhausted
-    for cap in [0usize, 1, 5, 33] {
-        let code = match cap {
-            0 => run_cap::<0>(),
-            1 => run_cap::<1>(),
-            5 => run_cap::<5>(),
-            _ => run_cap::<33>(),
+    // response buffer exhausted at every byte of the response (header, payload, terminator)
+    let mut full: Vec<u8> = Vec::new();
+    let _ = TREE.run(b"BIG?", &mut D, &mut Context::default(), &mut full);
+    macro_rules! caps {
+        ($($n:literal)*) => {
+            $( let code = run_cap::<$n>();
+               if $n < full.len() { out.put(&json!({"t": "fault", "kind": "buffer", "code": code, "input": format!("BIG? with ArrayVec<u8,{}>", $n)})); } )*
         };
-        out.put(&json!({"t": "fault", "kind": "buffer", "code": code, "input": format!("BIG? with ArrayVec<u8,{cap}>")}));
     }
+    caps!(0 1 2 3 4 5 6 7 8 9 10 11 12 13 14 15 16 17 18 19 20 21 22 23 24 25 26 27 28 29 30 31 32 33 34 35 36);
     out.finish();
     0
 }
